@@ -38,6 +38,7 @@ properties! {
     "C12" => c12,
     "C13" => c13,
     "C14" => c14,
+    "C15" => c15,
     "C06" => c06,
     "C19" => c19,
 }
